@@ -254,6 +254,9 @@ func (s *Sim) callOpts(rs *rpcState) []grpc.CallOption {
 		rs.peerOpt = &peerHolder{}
 		opts = append(opts, grpc.Peer(&rs.peerOpt.p))
 	}
+	if r.Creds0 != nil {
+		opts = append(opts, grpc.PerRPCCredentials(&simCreds{spec: r.Creds0, s: s, rpc: r.ID}))
+	}
 	if r.Creds != nil {
 		opts = append(opts, grpc.PerRPCCredentials(&simCreds{spec: r.Creds, s: s, rpc: r.ID}))
 	}
